@@ -12,6 +12,13 @@ Theorem C17_hash_agree : forall scope name rest,
 Proof. exact hash_agree. Qed.
 Print Assumptions C17_hash_agree.
 
+(* ... and so does the runtime identifier-from-name function: it yields the bytes of the generated type identifier. *)
+Theorem C17_identifier_from_name : forall scope name rest,
+  Forall nul_free scope -> nul_free name ->
+  identifier_from_name (qualified_name scope name ++ 0 :: rest) = compile_type_identifier scope name.
+Proof. exact identifier_from_name_agrees. Qed.
+Print Assumptions C17_identifier_from_name.
+
 Theorem C17_hash_never_zero : forall s, 0 < fnv1a32 s < 4294967296.
 Proof. exact fnv1a32_nonzero. Qed.
 Print Assumptions C17_hash_never_zero.
